@@ -118,6 +118,12 @@ func runSchedule(sc Scenario, choices []int) result {
 			sched.Gate(point)
 		})
 		defer setRcptHook(nil)
+		// the window between "the message is on the wire" and whatever the sender does next
+		conn.GateWritten = func() {
+			if sched.Mine() {
+				sched.Gate("conn.written")
+			}
+		}
 	}
 	var wire []byte
 	seen := map[string]bool{}
